@@ -344,3 +344,36 @@ func VerifC17V2Partial() {
 	}
 	vrt.Reach("end")
 }
+
+func init() { VerifHarnesses["VerifC17V2AwaitIntf"] = VerifC17V2AwaitIntf }
+
+// VerifC17V2AwaitIntf: a read of the v2 store that OVERLAPS with the store of its key: the other thread's whole Store runs
+// at a symbolically chosen lock boundary of Await (before its lookup, or - should lookup and the capture of the
+// notification channel ever be two critical sections - between them), or after the reader is parked. The reader returns
+// the stored value in every schedule (no lost wake-up).
+func VerifC17V2AwaitIntf() {
+	dl := &vDeadliner{ch: make(chan core.Duty, 1)}
+	db := NewMemDBV2(dl)
+	ctx := context.Background()
+	duty := core.Duty{Slot: 1, Type: core.DutyAttester}
+	ra := vrt.Byte("rootA")
+	var serr error
+	doStore := func() { serr = db.Store(ctx, duty, core.SignedDataSet{vPkA: vSigned{ra, 1}}) }
+	vrt.Interfere(doStore)
+	var got core.SignedData
+	var aerr error
+	done := false
+	vrt.Par1(func() { got, aerr = db.Await(ctx, duty, vPkA, 0); done = true }, func() {
+		if !vrt.InterfererRan() {
+			doStore()
+		}
+	})
+	vrt.Assert("the overlapping store succeeded", serr == nil)
+	vrt.Assert("a read overlapping with the store of its key returns", done && aerr == nil)
+	if done && aerr == nil {
+		a, ok := got.(vSigned)
+		vrt.Assert("with the stored value", ok && a.Root == ra)
+		vrt.Reach("read answered")
+	}
+	vrt.Reach("end")
+}
